@@ -116,7 +116,7 @@ fn gen_decision_op(cx: &mut Cx, _k: u64, h: &Arc<Honest>) -> Op {
     let mut blind = h.blind.clone();
     let which = cx.ch.choose("verifier", 5);
     // one mutation (or none)
-    let mutation = cx.ch.choose("mutation", 18);
+    let mutation = cx.ch.choose("mutation", 20);
     let mut mlabel = "honest".to_string();
     {
         let target: &mut Bytes = match which { 0 => &mut sig, 1 => &mut proof, 2 => &mut cwp, 3 => &mut bsig, _ => &mut bproof };
@@ -139,6 +139,10 @@ fn gen_decision_op(cx: &mut Cx, _k: u64, h: &Arc<Honest>) -> Op {
             15 => { if didx.len() >= 2 && dm[0] != dm[1] { didx.swap(0, 1); mlabel = "index-list-reordered,messages-as-given".into(); } if dcidx.len() >= 2 && dcm[0] != dcm[1] { dcidx.swap(0, 1); mlabel = "index-list-reordered,messages-as-given".into(); } }
             16 => { if !didx.is_empty() { didx.insert(0, didx[0]); mlabel = "index-duplicated-without-its-message".into(); } if !dcidx.is_empty() { dcidx.insert(0, dcidx[0]); mlabel = "index-duplicated-without-its-message".into(); } }
             17 => { if let (Some(j), Some(c)) = (dcidx.pop(), dcm.pop()) { didx.push(l + 1 + j); dm.push(c); mlabel = "committed-pair-claimed-as-signer-pair".into(); } }
+            // one disclosed message MORE than there are indexes (appended after the genuine ones), and
+            // one FEWER: length(disclosed_messages) != length(disclosed_indexes) is INVALID in the draft
+            18 => { dm.push(bytes_for(seed, b"c10-surplus", 0, 9)); if which == 4 { dcm.push(bytes_for(seed, b"c10-surplus", 1, 9)); } mlabel = "surplus-disclosed-message".into(); }
+            19 => { if dm.pop().is_some() || dcm.pop().is_some() { mlabel = "missing-disclosed-message".into(); } }
             // the same key in its 192-octet coordinate form: octets_to_pubkey of the draft knows the 96-octet form only
             14 => { if let Ok((x, y)) = api::pk_to_coordinates(&pk) { pk = [x, y].concat(); mlabel = "pk-in-uncompressed-form".into(); } }
             _ => {
